@@ -317,13 +317,14 @@ impl<'a> ExecutionEngine<'a> {
     }
 
     fn update_limit(&mut self, limit: Option<usize>, mut output: ExecutionOutput) -> ExecutionOutput {
+        // Only a line that produced a result can reach the limit (a line that yields no row changes nothing)
         if let Some(row) = output.result_row.as_ref() {
             self.num_output_rows += row.data.iter().filter(|row| row.any_result()).count();
-        }
 
-        if let Some(limit) = limit {
-            if self.num_output_rows >= limit {
-                output = output.with_reached_limit();
+            if let Some(limit) = limit {
+                if self.num_output_rows >= limit {
+                    output = output.with_reached_limit();
+                }
             }
         }
 
